@@ -80,24 +80,41 @@ class Exploration:
         self.fixpoint = True
         self.depth = 0             # deepest level at which a new state appeared
         self.violations = []       # (history, op, payload)
+        self.replayed_steps = 0    # operations re-executed to rebuild a history on one object
 
 
-def explore(init_obj, ops, apply_op, invariant, max_depth):
+def explore(init_obj, ops, apply_op, invariant, max_depth, same_object=True):
     """BFS.  apply_op(op, obj) -> (obj', result); invariant(op, result, hist) ->
-    None | payload.  A state is expanded once; every operation is applied to a
-    fresh unpickled copy of it."""
+    None | payload.  A state is expanded once.
+
+    same_object=True (default): every transition is executed by replaying the
+    whole history that first reached the state, then the operation, on ONE object
+    (a fresh copy of the initial object that is then never copied again except by
+    the operations themselves).  State that the implementation keeps *about* the
+    object rather than *in* it - a memo keyed on the object's identity, a
+    module-level "last compiled" slot - therefore lives through the history
+    exactly as it does for a caller.  With same_object=False every operation is
+    applied to a fresh unpickled snapshot of the state (cheaper, but identity-bound
+    state is lost at every step)."""
     ex = Exploration()
     k0 = canon(init_obj)
     seen = {k0}
     seen_sorted = {canon_sorted(init_obj)}
-    frontier = deque([(pickle.dumps(init_obj, 4), ())])
+    init_blob = pickle.dumps(init_obj, 4)
+    frontier = deque([(init_blob, ())])
     while frontier:
         blob, hist = frontier.popleft()
         if len(hist) >= max_depth:
             ex.fixpoint = False
             continue
         for op in ops:
-            obj = pickle.loads(blob)
+            if same_object and hist:
+                obj = pickle.loads(init_blob)
+                for h in hist:
+                    obj, _ = apply_op(h, obj)
+                    ex.replayed_steps += 1
+            else:
+                obj = pickle.loads(blob)
             obj2, result = apply_op(op, obj)
             ex.transitions += 1
             bad = invariant(op, result, hist)
